@@ -81,6 +81,21 @@ def oracle(case, outcome, ctx):
     def err(sig, msg):
         errs.append((sig, msg))
 
+    # the result is asked for a second time from the same object (once to write, once for a report):
+    # same assemblies, same names in the same order
+    ba = outcome.get("ba")
+    if ba is not None and hash(str(case.get("id"))) % 3 == 0:
+        from vf.core import dump_assemblies
+
+        try:
+            again = dump_assemblies(ba.assemblies_with_scaffolds_fused())
+            n1 = [(str(k), [s_[0] for s_ in scs]) for k, scs in out]
+            n2 = [(str(k), [s_[0] for s_ in scs]) for k, scs in again]
+            ctx.count("second-call:compared")
+            if n1 != n2:
+                err("names-differ-when-the-result-is-asked-for-again", f"first {n1}\nsecond {n2}")
+        except Exception as e:  # noqa: BLE001
+            err(f"second-call-raised-{type(e).__name__}", str(e)[:300])
     names_of = {}
     for key, scs in out:
         names = [s[0] for s in scs]
@@ -292,6 +307,7 @@ def plan(tier, seed):
 def gates(c, tier):
     need = {
         "naming-ok:tag": 1500,
+        "second-call:compared": 1000,
         "naming-ok:tag2": 400,
         "autosomes:numbered": 3000,
         "cases:more-than-9-autosomes": 5,
